@@ -159,6 +159,7 @@ func cmdCheck(args []string) int {
 	usedCt := map[string]bool{}
 	var assumedCts []string
 	deferred := map[string]int{}
+	nsupport := 0
 	var unverified []string
 	for _, ct := range e.allCts {
 		f := e.ctFunc[ct]
@@ -211,7 +212,16 @@ func cmdCheck(args []string) int {
 			continue
 		}
 		for _, o := range fv.obls {
-			if o.Kind == "cover" || hasProp(o.Props, *prop) {
+			// supporting obligations: clauses without a property tag of their own (loop invariants, callee
+			// preconditions, frames, untagged postconditions) are what the tagged clauses of this function and
+			// its callers rest on, so they are checked under every property the function serves. Untagged
+			// safety obligations are checked only under the properties named by the function's props line;
+			// elsewhere "no panic on this path" is a path assumption (partial correctness), reported as such.
+			supporting := o.Inherited && o.Kind != "safety" && o.Kind != "cover"
+			if supporting && !hasProp(o.Props, *prop) {
+				nsupport++
+			}
+			if o.Kind == "cover" || hasProp(o.Props, *prop) || supporting {
 				if *tier != "thorough" && o.Kind != "cover" && thoroughOnly(o.Props, *prop) {
 					deferred[o.Func+"#"+strings.SplitN(strings.SplitN(o.ID, "#", 2)[1], "@", 2)[0]]++
 					continue
@@ -222,6 +232,7 @@ func cmdCheck(args []string) int {
 		}
 		reports = append(reports, rep)
 	}
+	_ = nsupport
 	// lemmas over the spec functions
 	lfiles, _ := filepath.Glob(filepath.Join(*verif, "spec", "lemmas", *prop+"_*.smt2"))
 	sort.Strings(lfiles)
